@@ -30,6 +30,8 @@ var c17Controls = []Control{
 		Mutate: ctlReplaceAnywhere("\t\t\tif sl.peekNext() != ')' {\n\t\t\t\t// Like Bash, an unmatched \"(\" makes the operator a literal;", "\t\t\tif false {\n\t\t\t\t// Like Bash, an unmatched \"(\" makes the operator a literal;")},
 	{Name: "escaped-rune-written-raw", Rule: "R17b", WantKey: "regexpNext#pattern text written: c", File: "pattern/pattern.go",
 		Mutate: ctlReplaceAnywhere("\t\t\treturn &SyntaxError{msg: `\\ at end of pattern`}\n\t\t}\n\t\tsb.WriteString(regexp.QuoteMeta(string(c)))", "\t\t\treturn &SyntaxError{msg: `\\ at end of pattern`}\n\t\t}\n\t\tsb.WriteRune(c)")},
+	{Name: "rune-truncated-to-a-byte", Rule: "R17d", WantKey: "regexpNext#byte(c)", File: "pattern/pattern.go",
+		Mutate: ctlReplaceAnywhere("\t\tif c > utf8.RuneSelf {\n\t\t\tsb.WriteRune(c)\n\t\t} else {", "\t\tif c == 'é' {\n\t\t\tsb.WriteByte(byte(c))\n\t\t} else if c > utf8.RuneSelf {\n\t\t\tsb.WriteRune(c)\n\t\t} else {")},
 	{Name: "mode-bit-never-read", Rule: "R17c", WantKey: "pattern.NoGlobStar is consulted", File: "pattern/pattern.go",
 		Mutate: ctlReplaceAnywhere("if mode&NoGlobStar == 0 && singleBefore && singleAfter {", "if singleBefore && singleAfter {")},
 }
@@ -42,10 +44,12 @@ func runC17(p *Prog, r *Result) {
 	}
 	r.Rule("R17a", "the pattern lexer's end-of-pattern sentinel is never written into the regular expression (shared with C28 R28n)", 6)
 	checkPatternSentinelWrites(p, r, "R17a")
-	r.Rule("R17b", "text taken from the pattern is written into the regular expression only quoted, as a known or non-ASCII rune, as a validated class name, or as an ordinary bracket member", 8)
+	r.Rule("R17b", "text taken from the pattern is written into the regular expression only quoted, as a known or non-ASCII rune, as a validated class name, or as an ordinary bracket member", 6)
 	checkPatternTextQuoted(p, r, "R17b")
 	r.Rule("R17c", "every exported Mode bit is consulted in Regexp's call tree", 7)
 	checkModeBitsConsulted(p, r, "R17c")
+	r.Rule("R17d", "a rune is narrowed to a byte, in Regexp's call tree, only where it is known to be below utf8.RuneSelf (0 instances on the pinned tree; armed by a control)", 0)
+	checkRuneNarrowing(p, r, "R17d")
 }
 
 func checkModeBitsConsulted(p *Prog, r *Result, rule string) {
@@ -150,7 +154,7 @@ func checkPatternTextQuoted(p *Prog, r *Result, rule string) {
 					if isLexCall(x) {
 						hit = true
 					}
-					if callee := calleeOf(info, x); callee != nil && qualName(callee) == "regexp.QuoteMeta" {
+					if callee := calleeOf(info, x); callee != nil && (qualName(callee) == "regexp.QuoteMeta" || quotingHelper(info, g, callee)) {
 						return false
 					}
 				case *ast.SelectorExpr:
@@ -414,4 +418,189 @@ func bracketDefault(info *types.Info, fd *ast.FuncDecl, call *ast.CallExpr, o ty
 		return true
 	})
 	return ok
+}
+
+// quotingHelper: a function of the package every return of which is regexp.QuoteMeta(…), a constant, a constant
+// followed by string(c), or string(c) — where c is a rune parameter that the clause it sits in has compared with
+// constants or found above the ASCII range. Its result is as good as QuoteMeta's.
+func quotingHelper(info *types.Info, g *refGraph, fn *types.Func) bool {
+	fd := g.decl[fn.Origin()]
+	if fd == nil || fd.Body == nil || fd.Type.Results == nil || len(fd.Type.Results.List) != 1 {
+		return false
+	}
+	params := map[types.Object]bool{}
+	for _, f := range fd.Type.Params.List {
+		for _, nm := range f.Names {
+			params[info.Defs[nm]] = true
+		}
+	}
+	fg := NewFGraph(info, fd.Body, nil)
+	knownAt := func(at ast.Node, o types.Object) bool {
+		b := blockContaining(fg, at)
+		if b == nil {
+			return false
+		}
+		return underEdges(fg, b, func(e *FEdge) bool {
+			if e.Cond == nil || e.TypeCase {
+				return false
+			}
+			if e.Tag != nil {
+				id, ok := ast.Unparen(e.Tag).(*ast.Ident)
+				tv, has := info.Types[e.Cond]
+				return ok && info.ObjectOf(id) == o && e.Pol && has && tv.Value != nil
+			}
+			be, ok := ast.Unparen(e.Cond).(*ast.BinaryExpr)
+			if !ok {
+				return false
+			}
+			id, ok := ast.Unparen(be.X).(*ast.Ident)
+			if !ok || info.ObjectOf(id) != o {
+				return false
+			}
+			tv, has := info.Types[be.Y]
+			if !has || tv.Value == nil {
+				return false
+			}
+			if (be.Op == token.EQL && e.Pol) || (be.Op == token.NEQ && !e.Pol) {
+				return true
+			}
+			if v, exact := constant.Int64Val(constant.ToInt(tv.Value)); exact && v >= 127 && (be.Op == token.GTR || be.Op == token.GEQ) && e.Pol {
+				return true
+			}
+			return false
+		})
+	}
+	var safe func(at ast.Node, e ast.Expr) bool
+	safe = func(at ast.Node, e ast.Expr) bool {
+		e = ast.Unparen(e)
+		if tv, ok := info.Types[e]; ok && tv.Value != nil {
+			return true
+		}
+		switch x := e.(type) {
+		case *ast.BinaryExpr:
+			return x.Op == token.ADD && safe(at, x.X) && safe(at, x.Y)
+		case *ast.CallExpr:
+			if callee := calleeOf(info, x); callee != nil && qualName(callee) == "regexp.QuoteMeta" {
+				return true
+			}
+			if tv, ok := info.Types[x.Fun]; ok && tv.IsType() && len(x.Args) == 1 {
+				if id, ok := ast.Unparen(x.Args[0]).(*ast.Ident); ok && params[info.ObjectOf(id)] {
+					return knownAt(at, info.ObjectOf(id))
+				}
+			}
+		}
+		return false
+	}
+	ok, any := true, false
+	inspectNoLit(fd.Body, func(n ast.Node) bool {
+		if rs, isRet := n.(*ast.ReturnStmt); isRet && len(rs.Results) == 1 {
+			any = true
+			if !safe(rs, rs.Results[0]) {
+				ok = false
+			}
+		}
+		return true
+	})
+	return ok && any
+}
+
+// checkRuneNarrowing (R17d): byte(c) of a rune keeps the low eight bits; for anything at or above utf8.RuneSelf that is
+// another character, or half of one. In Regexp's call tree every conversion of a rune-typed value to a byte is under
+// a test that the value is below utf8.RuneSelf (c < 128, c <= 127, or the failing branch of c >= 128 / c > 127).
+func checkRuneNarrowing(p *Prog, r *Result, rule string) {
+	pkg := p.Pkg("pattern")
+	info := pkg.TypesInfo
+	regexpFn := lookupFunc(pkg, "Regexp")
+	if regexpFn == nil {
+		r.Fatalf("anchor pattern.Regexp not found")
+		return
+	}
+	g := buildRefGraph(p)
+	reach := g.reachable(regexpFn)
+	n := 0
+	var fos []*types.Func
+	for fo := range g.decl {
+		if (reach[fo] || fo == regexpFn) && g.pkgOf[fo] == pkg && g.decl[fo].Body != nil {
+			fos = append(fos, fo)
+		}
+	}
+	sort.Slice(fos, func(i, j int) bool { return g.decl[fos[i]].Pos() < g.decl[fos[j]].Pos() })
+	for _, fo := range fos {
+		fd := g.decl[fo]
+		var fg *FGraph
+		seen := map[string]int{}
+		inspectNoLit(fd.Body, func(m ast.Node) bool {
+			c, ok := m.(*ast.CallExpr)
+			if !ok || len(c.Args) != 1 {
+				return true
+			}
+			tv, ok := info.Types[c.Fun]
+			if !ok || !tv.IsType() {
+				return true
+			}
+			bt, ok := tv.Type.Underlying().(*types.Basic)
+			if !ok || bt.Kind() != types.Uint8 {
+				return true
+			}
+			at, ok := info.TypeOf(c.Args[0]).Underlying().(*types.Basic)
+			if !ok || at.Kind() != types.Int32 {
+				return true
+			}
+			if atv, ok := info.Types[c.Args[0]]; ok && atv.Value != nil {
+				return true // a constant
+			}
+			id, ok := ast.Unparen(c.Args[0]).(*ast.Ident)
+			n++
+			key := fmt.Sprintf("%s#%s", funcKey("pattern", fd), exprString(c))
+			seen[key]++
+			if seen[key] > 1 {
+				key += fmt.Sprintf("#%d", seen[key])
+			}
+			if !ok {
+				r.Bad(rule, key, c.Pos(), "a rune-valued expression is narrowed to a byte: anything at or above utf8.RuneSelf becomes another character")
+				return true
+			}
+			o := info.ObjectOf(id)
+			if fg == nil {
+				fg = NewFGraph(info, fd.Body, nil)
+			}
+			blk := blockContaining(fg, c)
+			under := blk != nil && underEdges(fg, blk, func(e *FEdge) bool {
+				if e.Cond == nil || e.Tag != nil || e.TypeCase {
+					return false
+				}
+				be, ok := ast.Unparen(e.Cond).(*ast.BinaryExpr)
+				if !ok {
+					return false
+				}
+				x, ok := ast.Unparen(be.X).(*ast.Ident)
+				if !ok || info.ObjectOf(x) != o {
+					return false
+				}
+				tv, has := info.Types[be.Y]
+				if !has || tv.Value == nil {
+					return false
+				}
+				v, exact := constant.Int64Val(constant.ToInt(tv.Value))
+				if !exact {
+					return false
+				}
+				switch {
+				case be.Op == token.LSS && e.Pol && v <= 128, be.Op == token.LEQ && e.Pol && v <= 127:
+					return true
+				case be.Op == token.GEQ && !e.Pol && v <= 128, be.Op == token.GTR && !e.Pol && v <= 127:
+					return true
+				case be.Op == token.EQL && e.Pol && v < 128:
+					return true
+				}
+				return false
+			})
+			r.Check(under, rule, key, c.Pos(), id.Name+" is known to be below utf8.RuneSelf on every path to the conversion",
+				fmt.Sprintf("the rune %s is narrowed to a byte on a path where it may be at or above utf8.RuneSelf: a non-ASCII character of the pattern is written as one stray byte — the expression matches another character, or is not valid UTF-8 and does not compile", id.Name))
+			return true
+		})
+	}
+	if n == 0 {
+		r.Notef("%s: no rune is narrowed to a byte in Regexp's call tree on this tree", rule)
+	}
 }
